@@ -339,7 +339,7 @@ fn case_strategy(tier: Tier, cli: bool) -> BoxedStrategy<Case> {
                 _ => [k, 0, 0],
             };
             let p = RecParams { max_records: tier.pick(8, 20), scale: bounds[0].max(1), max_len: 90, degenerate_w: 7, bounds, nuc_only: false };
-            (gen::records_in_container(p), gen::records(p), prop_oneof![6 => Just(None), 1 => (any::<u16>(), gen::utf8_seq(40)).prop_map(Some)], prop_oneof![2 => Just(0u8), 1 => 0u8..32]).prop_map(move |((mut recs, mut cont), alt, utf8, envp)| {
+            (gen::records_in_container(p), gen::records(p), prop_oneof![6 => Just(None), 1 => (any::<u16>(), gen::utf8_seq(40)).prop_map(Some)], prop_oneof![2 => Just(0u8), 1 => 0u8..128]).prop_map(move |((mut recs, mut cont), alt, utf8, envp)| {
                 // one record made of (or mixed with) two-byte UTF-8 characters: ambiguous bytes >= 0x80;
                 // only on unwrapped lines, and not for whole-sequence CGR cases that must stay nucleotide-only
                 if let Some((i, s)) = utf8 {
